@@ -72,6 +72,12 @@ func (v *Verifier) verifyFunc(fn *ssa.Function, fc *FuncContract) (res *FuncResu
 	for _, fv := range fn.FreeVars {
 		t := c.fresh("fv_"+fv.Name(), SPtr)
 		c.assume(not(eq(t, tNilPtr)))
+		// a captured variable is its own allocation (go/ssa: the value of a free variable is an
+		// Alloc), never a field or element of another object, and distinct from the other captures
+		c.assume(Term{"((_ is pobj) " + t.S + ")", SBool})
+		for _, o := range fr.freeVars {
+			c.assume(not(eq(t, o)))
+		}
 		c.assumeTypeInv(t, fv.Type(), st)
 		fr.freeVars = append(fr.freeVars, t)
 	}
@@ -314,7 +320,11 @@ func (fr *Frame) frameObligations(fc *FuncContract) {
 
 // ---- queries ---------------------------------------------------------------------------------
 
-func (c *Ctx) buildQuery(o *Obligation) string {
+func (c *Ctx) buildQuery(o *Obligation) string { return c.buildQueryOpt(o, false) }
+
+// buildQueryOpt: with lean set, the quantified statements of earlier obligations are left out
+// (dropping assumptions is sound; it helps when they send the solvers into instantiation loops).
+func (c *Ctx) buildQueryOpt(o *Obligation, lean bool) string {
 	goal := "(and " + o.Reach.S + " (not " + o.Cond.S + "))"
 	goalSyms := symbolsOf(goal, c.declared)
 	facts := c.facts[:o.nfacts]
@@ -334,6 +344,9 @@ func (c *Ctx) buildQuery(o *Obligation) string {
 		b.WriteByte('\n')
 	}
 	for _, i := range keep {
+		if lean && facts[i].derived && (strings.Contains(fs[i], "(forall ") || strings.Contains(fs[i], "(exists ")) {
+			continue
+		}
 		b.WriteString("(assert ")
 		b.WriteString(fs[i])
 		b.WriteString(")\n")
@@ -413,6 +426,17 @@ func (v *Verifier) solveAll(results []*FuncResult) {
 				to = 6 // listed findings are expected to fail: do not spend the full limit on them
 			}
 			j.o.Res = solve(q, v.Opts.WorkDir, to, v.Opts.Solvers)
+			if j.o.Res.Verdict == "unknown" && !v.knownNames[j.o.Name] {
+				if lean := j.c.buildQueryOpt(j.o, true); lean != text {
+					q2 := &Query{Name: j.o.Name + ".lean", Text: lean}
+					if r2 := solve(q2, v.Opts.WorkDir, to, v.Opts.Solvers); r2.Verdict == "unsat" {
+						r2.TimeS += j.o.Res.TimeS
+						r2.Solver += " (without earlier quantified obligations)"
+						j.o.Res = r2
+						j.o.Query = lean
+					}
+				}
+			}
 			if v.Opts.TwoSolvers && j.o.Res.Verdict == "unsat" {
 				// thorough: a second, different solver must agree
 				var others []string
